@@ -111,7 +111,7 @@ func deepSame(v, snap any) bool {
 }
 
 func c06Doc() map[string]any {
-	vrtSpec(3, 2, 1, "k,x", smASCII, nfInt, 0)
+	vrtSpec(tq(3, 4), 2, 1, "k,x", smASCII, nfInt, 0)
 	vrtNumRange(0, 3)
 	vrtNested(2)
 	return map[string]any{
@@ -205,7 +205,7 @@ var c06Entry = []string{"a", "a[0]", "a.b | c", "[", "a[", "abs()", "nosuch(a)",
 // H_C06_entry: Search, Compile+Search and MustCompile agree; MustCompile
 // panics exactly when Compile fails.
 func H_C06_entry() {
-	vrtSpec(2, 2, 1, "a,b,c", smASCII, nfInt, 0)
+	vrtSpec(tq(2, 3), 2, 1, "a,b,c", smASCII, nfInt, 0)
 	expr := c06Entry[vrtChoose("expr", len(c06Entry))]
 	vrtNote("template:" + expr)
 	doc := vrtDoc("d", 2, uJSON, uJSON)
